@@ -389,7 +389,7 @@ def tasks(tier):
            Task("translator_validation", c_translator_validation, dict(seed=0), engine="custom")]
     if tier == "thorough":
         out.append(Task("angc_ylm/3rad", h_angc_ylm, dict(nrad=2, nw=(3, 4), nlm=9, nalpha=3, stride=5, offset=2)))
-    out += [Task("sdmx/ao_to_bas_l1", c05_sdmx.h_l1, {}), Task("sdmx/ao_to_bas_grid", c05_sdmx.h_grid, {}), Task("sdmx/shl_to_alpha_l1", c05_sdmx.h_shl_alpha, {})]
+    out += [Task("sdmx/ao_to_bas", c05_sdmx.h_plain, {}), Task("sdmx/ao_to_bas_l1", c05_sdmx.h_l1, {}), Task("sdmx/ao_to_bas_grid", c05_sdmx.h_grid, {}), Task("sdmx/shl_to_alpha_l1", c05_sdmx.h_shl_alpha, {})]
     if tier == "thorough":
         out += [Task("sdmx/ao_to_bas_l1/ng3", c05_sdmx.h_l1, dict(ng=3)), Task("sdmx/shl_to_alpha_l1/3x4", c05_sdmx.h_shl_alpha, dict(ng=3, nalpha=3, nsh=4))]
     return out + _grid_tasks(tier)
@@ -441,7 +441,7 @@ META = dict(
                "ciderpress/lib/mod_cider/conv_interpolation.c (behind those wrappers): compute_mol_convs_single_new, compute_pot_convs_single_new, add_lp1_term_fwd/bwd, add_lp1_onsite_new_fwd/bwd, "
                "project_conv_to_spline, project_spline_to_conv, fill_l1_coeff_fwd/bwd",
                "ciderpress/lib/mod_cider/fast_sdmx.c: SDMXcontract_ao_to_bas_l1 / _l1_bwd, SDMXcontract_ao_to_bas_grid / _grid_bwd, contract_shl_to_alpha_l1 / _bwd "
-               "(all floating-point arguments symbolic; forward cells against their documented sums; SDMXcontract_ao_to_bas / _bwd is in C02)"],
+               "(all floating-point arguments symbolic; forward cells against their documented sums; SDMXcontract_ao_to_bas / _bwd here and in C02)"],
     bounds=dict(grid_link="2 atoms, lmax 1, (n0,n1) in {(1,1),(2,0)} quick + {(2,2),(1,2)} thorough, 6 spline shells, 5 free points / a hand-made atomic grid of 4 radial shells and 8 points "
                       "(pruned to 7, permuted, padding 0-2); coordinates, spline tables and the grid ordering are concrete",
             atoms=2, lmax=1, nalpha=2, radial_shells="2-5", angular_points="2-4 per shell", strides="stride > nalpha with offset 0/1", coef_order="gq, qg", threads="serial semantics (C10 covers threading)"),
